@@ -1,4 +1,144 @@
-/- Driver.C16 — stream `C16` (stub: replaced when the property's model is built). -/
+/-
+  Driver.C16 — stream `C16`.
+
+  payload := ( holder idx attrIdx doctype tree tree2 pre ops )
+    holder, idx, attrIdx, doctype, tree : as in Driver.C17 (holder also `validating`: a plain parser here)
+    tree2  : the second, unrelated document (held by a plain parser)
+    pre    := ( ( at op arg* )* )   -- the history of document 0 before the observation starts: every attribute
+                                    -- list is read once, then these edits (Driver.C17 `edit` ops, no reindex)
+    ops    := ( op* )      op := ( doc obs )      doc := 0 | 1
+    obs    := read none | read one i | read two i j | read sub i | read html i | read inner i | read all | read dochtml
+            | dochtml | outer i | inner i | starttag i | attrs i | pickle | clone i
+    (i, j: element positions in document order, taken modulo the number of elements)
+
+  Output: the canonical snapshot of the world (both documents, objects numbered jointly by first sight), then
+  per observer `(= out)` when the snapshot after it equals the previous one, else `(<snapshot> out)`;
+  finally whether each parser can still parse (`reset` hook present).
+-/
+import AHP.Model.Observe
+import Driver.C17
 namespace Driver.C16
-def run (_payload : String) : String := "unimplemented"
+open AHP AHP.Sexp AHP.Pk
+open Driver.C17 (build toBool? Canon objRef seed holderSx Gen attrsSx)
+
+def toC17 : Pk.Holder → Driver.C17.Holder
+  | .tree t => .tree t
+  | .parser p => .parser p
+
+def worldSx (w : World) : Sexp :=
+  let act : StateM Canon Sexp := do
+    for h in w.docs do seed (toC17 h)
+    let ss ← w.docs.mapM (fun h => holderSx (toC17 h))
+    pure (.list ss)
+  (act.run {}).1
+
+def mkDoc (holder : String) (idx : List Bool) (attrIdx : List Str) (doctype : Option Str) (tree : Sexp) (pid : Nat) (g : Gen) :
+    Option (Pk.Holder × Gen) :=
+  match holder with
+  | "detached" =>
+    match (build none tree).run g with
+    | (some t, g') => some (.tree t, g')
+    | _ => none
+  | _ =>
+    match (build (some pid) tree).run g with
+    | (some t, g') =>
+      let ix := match holder, idx with
+        | "indexed", [a, b, c, d] => some (indexDoc a b c d attrIdx t)
+        | _, _ => none
+      some (.parser { oid := pid, root := some t, doctype := doctype, hasReset := true, index := ix }, g')
+    | _ => none
+
+def nthOid (w : World) (d i : Nat) : Nat :=
+  match w.docs[d]? with
+  | some h =>
+    match h.root with
+    | some r => let l := DN.oids r; if l.isEmpty then 0 else l[i % l.length]?.getD 0
+    | none => 0
+  | none => 0
+
+def toObs (w : World) (d : Nat) : List Sexp → Option Obs
+  | [.atom "read", .atom "none"] => some (.read .none)
+  | [.atom "read", .atom "one", i] => (toNat? i).map (fun i => .read (.one (nthOid w d i)))
+  | [.atom "read", .atom "two", i, j] => do
+    let i ← toNat? i
+    let j ← toNat? j
+    pure (.read (.two (nthOid w d i) (nthOid w d j)))
+  | [.atom "read", .atom "sub", i] => (toNat? i).map (fun i => .read (.sub (nthOid w d i)))
+  | [.atom "read", .atom "html", i] => (toNat? i).map (fun i => .read (.html (nthOid w d i)))
+  | [.atom "read", .atom "inner", i] => (toNat? i).map (fun i => .read (.inner (nthOid w d i)))
+  | [.atom "read", .atom "all"] => some (.read .all)
+  | [.atom "read", .atom "dochtml"] => some (.read .docHtml)
+  | [.atom "dochtml"] => some .docHtml
+  | [.atom "outer", i] => (toNat? i).map (fun i => .outer (nthOid w d i))
+  | [.atom "inner", i] => (toNat? i).map (fun i => .inner (nthOid w d i))
+  | [.atom "starttag", i] => (toNat? i).map (fun i => .startTag (nthOid w d i))
+  | [.atom "attrs", i] => (toNat? i).map (fun i => .attrsList (nthOid w d i))
+  | [.atom "pickle"] => some .pickle
+  | [.atom "clone", i] => (toNat? i).map (fun i => .clone (nthOid w d i))
+  | _ => none
+
+def outSx : Out → Sexp
+  | .unit => sym "-"
+  | .str s => .list [sym "str", optStr s]
+  | .attrs l => .list [sym "attrs", attrsSx l]
+
+def loop : World → String → List Sexp → List Sexp → List Sexp × World
+  | w, _, [], acc => (acc.reverse, w)
+  | w, prev, op :: rest, acc =>
+    match op with
+    | .list (d :: obs) =>
+      match toNat? d with
+      | none => ((sym "bad-op" :: acc).reverse, w)
+      | some d =>
+        match toObs w d obs with
+        | none => ((sym "bad-op" :: acc).reverse, w)
+        | some o =>
+          let r := obsStep d o w
+          let s := (worldSx r.1).render
+          let row := if s = prev then Sexp.list [sym "=", outSx r.2] else .list [.atom s, outSx r.2]
+          loop r.1 s rest (row :: acc)
+    | _ => ((sym "bad-op" :: acc).reverse, w)
+
+def afterView : Pk.Holder → Pk.Holder
+  | .tree t => .tree (materialise t)
+  | .parser p => .parser p.afterGetstate
+
+def preEdits : Pk.Holder → Gen → List Sexp → Option (Pk.Holder × Gen)
+  | h, g, [] => some (h, g)
+  | h, g, .list (at_ :: op) :: rest =>
+    match toNat? at_, Driver.C17.toEdit op, h.root with
+    | some i, some e, some r =>
+      let l := DN.oids r
+      let t := if l.isEmpty then 0 else l[i % l.length]?.getD 0
+      preEdits (h.setRoot (applyEdit t g.oid g.uid e r)) ⟨g.oid + 1, g.uid + 1⟩ rest
+    | _, _, _ => none
+  | _, _, _ => none
+
+def runCase (holder : String) (idx : List Bool) (attrIdx : List Str) (doctype : Option Str) (tree tree2 : Sexp)
+    (pre ops : List Sexp) : Sexp :=
+  -- document 0: the holder under observation (parser object 0); document 1: a plain parser (object 1)
+  match mkDoc holder idx attrIdx doctype tree 0 ⟨2, 0⟩ with
+  | none => .list [sym "build-raised"]
+  | some (h0, g) =>
+    match mkDoc "plain" [] [] none tree2 1 g with
+    | none => .list [sym "build-raised"]
+    | some (h1, g1) =>
+      -- the history of document 0: one full read of both documents, then the edits
+      match (if pre.isEmpty then some (h0, h1, g1) else (preEdits (afterView h0) g1 pre).map (fun r => (r.1, afterView h1, r.2))) with
+      | none => .list [sym "bad-pre"]
+      | some (h0, h1, g') =>
+      let w : World := { docs := [h0, h1], next := g'.oid, nextUid := g'.uid }
+      let s0 := (worldSx w).render
+      let (rows, w') := loop w s0 ops []
+      .list ([sym "ok", .atom s0] ++ rows ++
+        [.list (sym "reuse" :: w'.docs.map (fun h => sym (if canParseAgain h then "ok" else "broken")))])
+
+def run (payload : String) : String :=
+  match Sexp.parse payload with
+  | some (.list [.atom holder, .list idx, .list attrIdx, doctype, tree, tree2, .list pre, .list ops]) =>
+    match idx.mapM toBool?, attrIdx.mapM toStr?, toOptStr? doctype with
+    | some idx, some attrIdx, some doctype => (runCase holder idx attrIdx doctype tree tree2 pre ops).render
+    | _, _, _ => "bad-case"
+  | _ => "bad-case"
+
 end Driver.C16
